@@ -134,6 +134,28 @@ def run(run):
             e["los_ppm"] = sint(abs(complex(h.mean())) ** 2 * 1e6)
         add(e, comp, {"fading": kname, "case": "statistics", "K": K, "K_type": type(K).__name__})
         run.case(("stats", kname, K, type(K).__name__), nontrivial=True)
+    # --- the configured K after the object has been through other routes: the attribute reassigned after a first use, and a freshly built
+    #     channel that loads the state_dict of a channel built with another K (a checkpoint carries learned state, not the configuration)
+    for route in ("k_factor reassigned after use", "state_dict of another K loaded"):
+        K2 = 8.0
+        if route.startswith("k_factor"):
+            ch = RicianFadingChannel(k_factor=0.5, coherence_time=1, avg_noise_power=0.0)
+            ch(torch.ones(4, 16))
+            ch.k_factor = K2
+        else:
+            ch = RicianFadingChannel(k_factor=K2, coherence_time=1, avg_noise_power=0.0)
+            try:
+                ch.load_state_dict(RicianFadingChannel(k_factor=0.5, coherence_time=1, avg_noise_power=0.0).state_dict())
+            except Exception:
+                continue
+        h = ch(torch.ones(1000, NB // 1000)).reshape(-1).to(torch.complex128)
+        e = base_event()
+        e["gain_ppm"] = sint(float((h.abs() ** 2).mean()) * 1e6)
+        e["gain_band_ppm"] = int(7e6 / math.sqrt(NB)) + 50
+        e["k10"] = sint(K2 * 10)
+        e["los_ppm"] = sint(abs(complex(h.mean())) ** 2 * 1e6)
+        add(e, "RicianFadingChannel", {"fading": "rician", "case": "statistics", "K": K2, "K_type": "float", "route": route})
+        run.case(("stats", "rician", K2, route), nontrivial=True)
     # --- independence of the gains: log-power correlation between two blocks of one item, and between the same block of neighbouring items
     NI = 200000
     for (kname, mk, comp, K) in kinds:
